@@ -12,7 +12,7 @@ Decomposition (DESIGN.md §5 C08; spec/spec_sample.h is written from rounding.tx
   conv.onehot.* convolution kernels up to 3x3 (4x4 thorough) with one-hot weights: window, tap order, matrix stride
 Jobs whose name starts with `finding.` hold obligations that FAIL on the pinned tree (own job each)."""
 import os
-from vdriver import Job
+from vdriver import Job, ext_jobs, ext_meta
 
 ARITH = ["--signed-overflow-check", "--div-by-zero-check", "--conversion-check"]
 SAFE = ["--signed-overflow-check", "--div-by-zero-check", "--bounds-check", "--pointer-check"]
@@ -296,6 +296,12 @@ def fastpath_jobs(tier):
     return js
 
 
+# extension modules merged into this property's job list (vdriver.ext_jobs / ext_meta)
+EXT = [
+    ("C08_scl", None),
+]
+
+
 def jobs(tier):
     th = tier != "quick"
     js = []
@@ -359,7 +365,7 @@ def jobs(tier):
                       unwind=6, kind="bounded", bound="scanline width 4 (unrolled); every mask content", functions=[fn, "__bits_image_fetch_" + ("affine_no_alpha" if it == 0 else "general")],
                       domain="float scanline fetcher of a transformed source with a wide mask: every 16-word mask, ghost pixel", timeout=600, min_props=2))
     js += fastpath_jobs(tier)
-    return js
+    return js + ext_jobs(tier, EXT)
 
 
 META = {
@@ -400,3 +406,4 @@ META = {
         "pixman_transform_point_3d itself (C11)",
     ],
 }
+META = ext_meta(META, EXT)
